@@ -75,7 +75,8 @@ def synthetic_shapes(isa, rnd):
     argument order (the order of MC_Deps.tla's Sem table); `order[isa]` is the permutation to
     WRITTEN order.  in_db=False forms are absent from the ISA DB and must follow the default
     rule (x86: last written operand is the destination; AArch64: first)."""
-    L = lambda: rnd.choice([0.0, 1.0, 1.0, 2.0, 3.0, 5.0])
+    # eighths of a cycle too: a figure rounded to 0.01 on the way is then visibly not the chain's length
+    L = lambda: rnd.choice([0.0, 1.0, 1.0, 2.0, 3.0, 5.0, 0.125, 2.375])
     x, a = "x86", "aarch64"
     shapes = [
         dict(name="opa", canon=["s", "s", "d"], order={x: [0, 1, 2], a: [2, 0, 1]}, in_db=True),
